@@ -425,6 +425,16 @@ class Interp:
         if cls in (float, int, bool, str):
             return self._convert(cls, args)
         init = cls.__init__
+        new = _lookup_class_attr(cls, "__new__")
+        if new is not None and new[1] is not object and isinstance(getattr(new[0], "__func__", new[0]), types.FunctionType):
+            # user-defined __new__ (e.g. ValueCondition -> TankLevelCondition): interpret it, then __init__ of the result's class
+            fnew = getattr(new[0], "__func__", new[0])
+            obj = self._call_function(fnew, [cls] + list(args), kwargs, defcls=new[1])
+            if isinstance(obj, SymObj) and issubclass(obj.cls, cls):
+                init2 = obj.cls.__init__
+                if isinstance(init2, types.FunctionType):
+                    self._call_function(init2, [obj] + list(args), kwargs, defcls=_defining_class(obj.cls, "__init__"))
+            return obj
         if isinstance(init, types.FunctionType):
             obj = SymObj(cls, {}, label="new " + cls.__name__)
             self._call_function(init, [obj] + list(args), kwargs, defcls=_defining_class(cls, "__init__"))
@@ -1569,6 +1579,8 @@ _orig_call = Interp._call
 def _call_ext(self, f, args, kwargs):
     if isinstance(f, (_NoOp, _Partial)):
         return _call_partial_or_noop(self, f, args, kwargs)
+    if f is object.__new__ and args and isinstance(args[0], type):
+        return SymObj(args[0], {}, label="new " + args[0].__name__)
     return _orig_call(self, f, args, kwargs)
 
 
